@@ -136,6 +136,10 @@ let dispatch (cmd : string) (t : tree) : tree =
   | "order_io", [cs] ->
       let cs = r_list (r_pair (r_list r_nat) (r_list r_nat)) cs in
       L [w_list w_nat (Order.inputs_ordered cs); w_list w_nat (Order.coupling_ordered cs); w_list w_nat (Order.outputs cs)]
+  | "fpi_trace", [tol; maxit; c0; tr; ret] ->
+      let tr = r_list (fun t -> match as_list t with [c; y; z] -> (r_qs c, (r_qs y, r_qs z)) | _ -> failwith "trace entry") tr in
+      let ret = match as_list ret with [] -> None | [y; z] -> Some (r_qs y, r_qs z) | _ -> failwith "ret" in
+      w_bool (QcRun.q_trace_ok (r_q tol) (r_nat maxit) Datatypes.O (Some (r_qs c0)) tr ret)
   | "shape_loop", [shapes] -> w_list w_nat (Shape.loop_shape (r_list r_shape shapes))
   | "shape_fmt_input", [l; s; data] -> w_list (w_list w_z) (Shape.fmt_input (r_shape l) (r_shape s) (r_list r_z data))
   | "shape_out", [l; o] -> w_list w_nat (Shape.fmt_output_shape (r_shape l) (r_shape o))
